@@ -422,6 +422,36 @@ class Effects:
             g = self._size_guard(f, cfg, sub, v, idx)
             if g:
                 return g
+        g = self._index_of_guard(f, sub, v, s)
+        if g:
+            return g
+        return None
+
+    def _index_of_guard(self, f: FunctionInfo, sub: ast.AST, v: ast.AST, s: ast.AST) -> Optional[str]:
+        """``K[i]`` with ``i = V.index(x)`` where K and V are the key list and value list of one mapping (or the
+        same sequence): the position found in one is valid in the other"""
+        if not isinstance(s, ast.Name) or f.name == "<module>":
+            return None
+        from .dataflow import flow_of
+
+        flow = flow_of(f.node)
+        at = flow.node_of(sub)
+        ds = flow.defs_reaching(at.id, s.id) if at else []
+        if len(ds) != 1 or ds[0].kind != "assign" or not isinstance(ds[0].value, ast.Call):
+            return None
+        c = ds[0].value
+        if not (isinstance(c.func, ast.Attribute) and c.func.attr == "index"):
+            return None
+
+        def base(e):
+            if isinstance(e, ast.Call) and isinstance(e.func, ast.Name) and e.func.id in ("list", "tuple") and len(e.args) == 1:
+                e = e.args[0]
+            if isinstance(e, ast.Call) and isinstance(e.func, ast.Attribute) and e.func.attr in ("keys", "values", "items") and not e.args:
+                e = e.func.value
+            return norm(e)
+
+        if base(c.func.value) == base(v):
+            return "the index was found by .index() in a sequence of the same mapping"
         return None
 
     def _is_split_value(self, f: FunctionInfo, v: ast.AST, at: ast.AST) -> bool:
@@ -443,13 +473,31 @@ class Effects:
     def _size_guard(self, f: FunctionInfo, cfg: CFG, sub: ast.AST, v: ast.AST, idx: int) -> Optional[str]:
         """``X[idx]`` under a dominating truthiness / len() test of X (X possibly wrapped in list()/tuple())."""
         base = v
+        if isinstance(base, ast.Name) and f.name != "<module>":
+            # a local bound once to list(X) / list(X.keys()) stands for X
+            from .dataflow import flow_of
+
+            flow = flow_of(f.node)
+            at = flow.node_of(sub)
+            ds = flow.defs_reaching(at.id, base.id) if at else []
+            if len(ds) == 1 and ds[0].kind == "assign" and isinstance(ds[0].value, ast.Call):
+                inner = ds[0].value
+                if isinstance(inner.func, ast.Name) and inner.func.id in ("list", "tuple", "sorted") and len(inner.args) == 1:
+                    extra_texts = {norm(base)}
+                    base = inner
+                else:
+                    extra_texts = set()
+            else:
+                extra_texts = set()
+        else:
+            extra_texts = set()
         if isinstance(base, ast.Call) and isinstance(base.func, ast.Name) and base.func.id in ("list", "tuple", "sorted") \
                 and len(base.args) == 1:
             base = base.args[0]
         if isinstance(base, ast.BoolOp) and isinstance(base.op, ast.Or) and isinstance(base.values[-1], (ast.List, ast.Tuple)) \
                 and base.values[-1].elts and idx in (0, -1):
             return "`or [<non-empty>]` fallback makes the sequence non-empty"
-        texts = {norm(base)}
+        texts = {norm(base)} | extra_texts
         if isinstance(base, ast.Call) and isinstance(base.func, ast.Attribute) and base.func.attr in ("keys", "values", "items") \
                 and not base.args:
             texts.add(norm(base.func.value))
